@@ -163,7 +163,9 @@ Record cfg := mkCfg {
   fix15 : bool;           (* updateTimeBoundsForRow guards the missing cell and uses Before for the upper bound *)
   fixoid : bool;          (* tripleToRow: ID alias on a literal object skips the triple (NULL if optional) instead of failing *)
   fixsb : bool;           (* a fully specified clause / lookup applies the time bounds to its own temporal predicate *)
-  fixzone : bool          (* validBinding / getBoundValueForComponent compare with sameValue (instants), not DeepEqual *)
+  fixzone : bool;         (* validBinding / getBoundValueForComponent compare with sameValue (instants), not DeepEqual *)
+  fixs3 : bool;           (* a fully specified clause met when the table has bindings: a condition (no alias) / an ordinary clause *)
+  fixou : bool            (* an OPTIONAL clause met when the table has no bindings yet NULL-extends the unit row when it matches nothing *)
 }.
 
 (* the comparison of two cells bound to the same name inside one clause *)
